@@ -166,6 +166,8 @@ func (ecd Encoder) Encode(values interface{}, pt *rlwe.Plaintext) (err error) {
 			}
 
 			valLen = len(values)
+		default:
+			return fmt.Errorf("cannot Encode (TimeDomain): values.(type) must be either []uint64 or []int64 but is %T", values)
 		}
 
 		for i := valLen; i < N; i++ {
